@@ -465,6 +465,8 @@ static void call_gssvx(int ilu)
     jints("perm_c", c->perm_c, n); jints("perm_r", c->perm_r, c->m); jints("etree", c->etree, n);
     jreals("R", c->R, c->m); jreals("C", c->C, n);
     fputs(",\"rpg\":", OUT); jnum(c->rpg); fputs(",\"rcond\":", OUT); jnum(c->rcond);
+    { int ex = -99999; if (c->rcond > 0 && isfinite((double)c->rcond)) { frexp((double)c->rcond, &ex); ex -= 1; }   /* rcond in [2^ex, 2^(ex+1)) */
+      fprintf(OUT, ",\"rcond_exp\":%d", ex); }
     if (!ilu && c->haveB) { jreals("ferr", c->ferr, c->nrhs); jreals("berr", c->berr, c->nrhs); }
     fputs(",\"mem\":[", OUT); jnum(c->mu.for_lu); fputc(',', OUT); jnum(c->mu.total_needed); fputc(']', OUT);
     LU_json(c);
